@@ -8,7 +8,7 @@ from .guardlib import gval, comparisons, lt_true, ge_true
 
 MANIFEST = {
     "text": "Must-pass-through rules on tendril.rs / fmt.rs: every write into heap storage is preceded on its path by make_owned / make_owned_with_capacity (copy on write) or targets a buffer created in the same function; every set_len belongs to a reviewed class (grow after own, zero-copy merge under all four sharing conditions, shrink); every safe method that reaches an unchecked primitive passes the matching bounds test and F::validate* first; format validators of subsequences check both ends. Plus equality of all 182 functions of tendril::{tendril, buf32, fmt, util} with their reviewed normal forms. futf's byte classes (complete table over 256 values, extracted by partial evaluation) and decode thresholds are UTF-8's (R11.6).",
-    "note": "Decides R11.1-R11.6 (compile-fail witnesses R11.3w in the thorough tier). Not decided: offset / length / capacity arithmetic and the WTF-8 fixup logic beyond equality with the reviewed normal forms; 'fails exactly when the model says'. Also decided: the WTF-8 surrogate-join formula, by its complete table over 2^20 payload pairs (R11.7). Round 6: make_owned copies unless owned (R11.9), inline only up to MAX_INLINE_LEN (R11.10), WTF-8 adjacency flag (R11.11). Round 7: WTF8 boundary validators accept the empty slice, ASCII bound (R11.12).",
+    "note": "Decides R11.1-R11.6 (compile-fail witnesses R11.3w in the thorough tier). Not decided: offset / length / capacity arithmetic and the WTF-8 fixup logic beyond equality with the reviewed normal forms; 'fails exactly when the model says'. Also decided: the WTF-8 surrogate-join formula, by its complete table over 2^20 payload pairs (R11.7). Round 6: make_owned copies unless owned (R11.9), inline only up to MAX_INLINE_LEN (R11.10), WTF-8 adjacency flag (R11.11). Round 7: WTF8 boundary validators accept the empty slice, ASCII bound (R11.12). Round 8: ASCII::validate examines every byte (R11.12), R11.13 = R12.7, futf::classify answers a look-back sequence only if it contains idx (F29, R11.14).",
     "technique": 'must-pass-through / guard-dominance rules over function normal forms + reviewed normal-form comparison',
 }
 LEVEL = "other"
